@@ -1,6 +1,7 @@
 package codecprops
 
 import (
+	"bytes"
 	"fmt"
 	"testing"
 
@@ -27,7 +28,7 @@ type C06Case struct {
 	Unknown int `json:"unknown,omitempty"`
 }
 
-const C06Rule = "For every struct of the registry and generated value with canonical reference encoding e: (prefix) every/random proper prefix of e; (inflate) one embedded length (string1 byte, string4 word, simple-list/list/map count field) rewritten to remaining+1, remaining+255, 2^30, 3*2^29 or 2^31-1; for a third of the prefix/inflate cases e additionally carries well-formed unknown fields (all wire types, nested containers, as in C04) so that the cut or inflated length can lie inside a field the reader skips; (subst) one field at any depth replaced by a well-formed field of an inadmissible wire type with the same tag. Oracle: differential against the reference decoder: L = strict decode of the longest prefix made of complete well-formed top-level fields (later optional members at default). Accepted: error, or - only when L exists - success with exactly L. subst: must be an error. Non-trivial = cut/inflation strictly inside a field payload, or substituted type with the same payload size. Distinct = distinct (struct, mutated bytes)."
+const C06Rule = "For every struct of the registry and generated value with reference encoding e (canonical, or - a third / a quarter of the cases - with unsigned-byte vectors in the simple-list form / byte vectors in the LIST form, which readers accept although the framework's writers do not produce them): (prefix) every/random proper prefix of e; (inflate) one embedded length (string1 byte, string4 word, simple-list/list/map count field) rewritten to remaining+1, remaining+255, 2^30, 3*2^29 or 2^31-1; for a third of the prefix/inflate cases e additionally carries well-formed unknown fields (all wire types, nested containers, as in C04) so that the cut or inflated length can lie inside a field the reader skips; (subst) one field at any depth replaced by a well-formed field of an inadmissible wire type with the same tag. Oracle: differential against the reference decoder: L = strict decode of the longest prefix made of complete well-formed top-level fields (later optional members at default). Accepted: error, or - only when L exists - success with exactly L. subst: must be an error. Non-trivial = cut/inflation strictly inside a field payload, or substituted type with the same payload size. Distinct = distinct (struct, mutated bytes)."
 
 // lenient computes L for mutated bytes: (value, nil) or (nil, err) when no acceptable
 // successful outcome exists.
@@ -75,7 +76,9 @@ func (r *Registry) drawC06(rt *rapid.T) C06Case {
 	}
 	c := C06Case{ValueCase: vc}
 	kind := rapid.SampledFrom([]string{"prefix", "prefix", "inflate", "subst"}).Draw(rt, "kind")
-	enc := rc.Enc{RecordSites: true}
+	// legal forms the framework's own writers do not produce, but its readers accept: byte
+	// vectors as LIST, unsigned-byte vectors as simple list
+	enc := rc.Enc{RecordSites: true, SimpleForU8: rapid.IntRange(0, 2).Draw(rt, "simpleForU8") == 0, ListForBytes: rapid.IntRange(0, 3).Draw(rt, "listForBytes") == 0}
 	spans := enc.StructBodySpans(sv)
 	e := enc.Buf
 	if kind != "subst" && rapid.IntRange(0, 2).Draw(rt, "withUnknown") == 0 {
@@ -83,7 +86,7 @@ func (r *Registry) drawC06(rt *rapid.T) C06Case {
 		// containers) spliced between the known members, so that cuts and inflated lengths
 		// also land inside fields the reader has to skip
 		x := &extrasEnc{rt: rt}
-		x.e.RecordSites = true
+		x.e.RecordSites, x.e.SimpleForU8, x.e.ListForBytes = true, enc.SimpleForU8, enc.ListForBytes
 		x.body(sv, 0)
 		if x.n > 0 {
 			enc, e, spans = x.e, x.e.Buf, nil
@@ -245,15 +248,23 @@ func (r *Registry) RunC06(t *testing.T, st *stat.Stats, quick, thorough int) {
 		if f != nil {
 			return f
 		}
-		e := rc.EncodeStruct(sv)
-		if len(e) > 600 {
-			e = e[:600]
-		}
-		for cut := 0; cut < len(e); cut++ {
-			c := C06Case{ValueCase: vc, Kind: "prefix", Mut: e[:cut], Detail: fmt.Sprintf("cut at %d of %d (all cuts)", cut, len(e))}
-			st.Case(append([]byte(vc.Struct+"|"), c.Mut...), true, nil, r.Name, "prefix-allcuts")
-			if f := r.RunC06Case(c); f != nil {
-				return f
+		canon := rc.EncodeStruct(sv)
+		for vi, enc := range []rc.Enc{{}, {SimpleForU8: true}, {ListForBytes: true}} {
+			enc.StructBody(sv)
+			e := enc.Buf
+			if vi > 0 && bytes.Equal(e, canon) {
+				continue // the value has no member the variant encodes differently
+			}
+			if len(e) > 600 {
+				e = e[:600]
+			}
+			form := []string{"canonical", "unsigned-byte vectors as simple list", "byte vectors as LIST"}[vi]
+			for cut := 0; cut < len(e); cut++ {
+				c := C06Case{ValueCase: vc, Kind: "prefix", Mut: e[:cut], Detail: fmt.Sprintf("cut at %d of %d (all cuts, %s)", cut, len(e), form)}
+				st.Case(append([]byte(vc.Struct+"|"), c.Mut...), true, nil, r.Name, "prefix-allcuts")
+				if f := r.RunC06Case(c); f != nil {
+					return f
+				}
 			}
 		}
 		return nil
